@@ -66,6 +66,21 @@ def sequences(tier):
             yield t
 
 
+def churn():
+    """Builds, generates from and drops a few dozen temporary schemas of the shapes used in the
+    sequences (what a test-suite does between two seeded runs)."""
+    from d42 import optional, schema
+    for n in range(12):
+        for tmp in (schema.dict({"tmp": schema.int(n)}), schema.dict({"k%d" % n: schema.str.len(1), optional("o"): schema.bool}),
+                    schema.list(schema.int.min(n).max(n + 3)).len(1, 2), schema.any(schema.int(n), schema.none),
+                    schema.str.regex("[a-c]{%d}" % (n % 3 + 1))):
+            try:
+                fake(tmp)
+            except Exception:  # noqa: BLE001
+                pass
+            del tmp
+
+
 def extra_instances():
     """Between seeding and generating, the program creates further instances of the generation
     classes (public constructors, non-default arguments) and does not use them to draw anything.
@@ -84,7 +99,8 @@ def main():
     behind), each over all sequences in forward or reverse enumeration order."""
     seeds, tier, mode = json.loads(sys.argv[1]), sys.argv[2], sys.argv[3]
     order = sys.argv[4] if len(sys.argv) > 4 else "fwd"
-    schemas = [build(t) for t in schema_terms()]
+    terms = schema_terms()
+    schemas = [build(t) for t in terms]
     if mode == "digests":
         rnd = Random()
         out = []
@@ -94,9 +110,16 @@ def main():
         for k in seeds:
             digests, unstable = {}, []
             for idx, seq in seqs:
+                local = schemas
+                if order.endswith("+churn"):
+                    # many temporary schemas were generated from and dropped; the schemas of this
+                    # sequence are built afterwards (they may sit where a dropped one sat)
+                    churn()
+                    local = {i: build(terms[i]) for i in set(seq)}
+
                 def gen(i):
                     try:
-                        return fake(schemas[i])
+                        return fake(local[i])
                     except Exception as e:  # noqa: BLE001 - a failing schema is part of the sequence
                         return ("raised", type(e).__name__)
 
